@@ -276,6 +276,8 @@ class Conn(object):
         self.fail_send_at = ()           # send indices at which the connection drops
         self.cancel_send_at = ()         # send indices at which the awaiting task is cancelled
         self.fail_recv_at = ()           # receive() call indices that raise (connection reset)
+        self.reject_close_codes = ()     # close codes the server refuses (Autobahn/Daphne: "invalid close code")
+        self.rejected_closes = 0
         self.send_cancelled = False
         self.hold = False                # harness may hold back deliveries
         self.recv_after_disconnect = 0
@@ -337,6 +339,10 @@ class Conn(object):
             self.sends_after_disc_pulled += 1
         if self.send_failed:
             self.sends_after_lost += 1
+        if (self.reject_close_codes and isinstance(event, dict) and event.get('type') == 'websocket.close'
+                and event.get('code') in self.reject_close_codes and not self.lost):
+            self.rejected_closes += 1
+            raise Exception('Invalid close code %r (server-side validation)' % (event.get('code'),))
         if idx in self.cancel_send_at:
             # the server cancels the application task while it awaits send()
             # (shutdown, or a server that cancels on disconnect)
@@ -349,7 +355,10 @@ class Conn(object):
             self.sim.chooser.note_fired('send_fail')
         if self.lost:
             if self.lost_mode == 'drop':
+                # Daphne-style: the server swallows the event. It still *receives* it, so the
+                # application's event sequence stays under the protocol monitor.
                 self.dropped.append(event)
+                self.monitor.on_send(event)
                 return
             self.send_failed = True
             self.failed_sends += 1
